@@ -5,6 +5,7 @@ export CARGO_NET_OFFLINE=true
 set -e
 # 1. differential validation of the hashbrown contract model (also builds the validator)
 (cd model/validate && cargo run --release -q --offline -- 4)
+(cd model/validate && RUSTFLAGS="--cfg model16" CARGO_TARGET_DIR=target/m16 cargo run --release -q --offline -- 3)
 # 2. the SMT lemma needs z3/cvc5 from the tooling venv
 /opt/veriftools/pyvenv/bin/python smt/growth_bound.py > /dev/null
 # 3. tool presence
